@@ -237,6 +237,42 @@ def _unary_budget_guard() -> dict[str, bool]:
     return {"only_on_success": calls >= 1 and calls == guarded}
 
 
+def _socket_handlers() -> dict[str, bool]:
+    """rpc/_server.py: around each implementation call of the socket-family server (`getattr(self._impl, info.name)(**kwargs)`
+    in `_serve_unary` and `_serve_stream`, `state.process(...)` in `_serve_stream`) the innermost `try` that has handlers
+    has `except Exception` as its FIRST handler (no narrower class is intercepted ahead of it — an implementation may raise
+    any class, BrokenPipeError / ConnectionResetError / StopIteration included) and that handler writes the error batch."""
+    t = ast.parse((REPO / "vgi_rpc/rpc/_server.py").read_text())
+    out = {"unary": False, "init": False, "step": False}
+
+    def innermost(fn: ast.FunctionDef, pred) -> ast.Try | None:
+        best = None
+        for n in ast.walk(fn):
+            if isinstance(n, ast.Try) and n.handlers:
+                body = ast.Module(body=n.body, type_ignores=[])
+                if any(isinstance(c, ast.Call) and pred(c) for c in ast.walk(body)):
+                    size = sum(1 for _ in ast.walk(body))
+                    if best is None or size < best[0]:
+                        best = (size, n)
+        return best[1] if best else None
+
+    def ok(tr: ast.Try | None, writer: str) -> bool:
+        if tr is None:
+            return False
+        h = tr.handlers[0]
+        return h.type is not None and ast.unparse(h.type) == "Exception" and writer in ast.unparse(h)
+
+    impl = lambda c: ast.unparse(c.func) == "getattr(self._impl, info.name)"  # noqa: E731
+    proc = lambda c: ast.unparse(c.func) == "state.process"  # noqa: E731
+    for fn in ast.walk(t):
+        if isinstance(fn, ast.FunctionDef) and fn.name == "_serve_unary":
+            out["unary"] = ok(innermost(fn, impl), "_write_error_batch(")
+        if isinstance(fn, ast.FunctionDef) and fn.name == "_serve_stream":
+            out["init"] = ok(innermost(fn, impl), "_write_error_stream(")
+            out["step"] = ok(innermost(fn, proc), "_write_error_batch(")
+    return out
+
+
 def _resource_layer() -> dict[str, bool]:
     """`_resources.py`: every path of the three RPC resources ends in `_set_http_status` / `_set_error_response`,
     the stream resources reset the context variable to OK before dispatch and read it afterwards."""
@@ -280,6 +316,7 @@ def emit() -> dict[str, str]:
     sites = _site_statuses()
     rl = _resource_layer()
     bg = _unary_budget_guard()
+    sh2 = _socket_handlers()
 
     def code(name: str) -> int:
         return int(getattr(HTTPStatus, name).value) if name and hasattr(HTTPStatus, name) else 0
@@ -347,6 +384,11 @@ def markerValue : String := {q(str(sh["value"]))}
 /-- `_run_unary_sync`: the post-flush `_enforce_response_budgets` check (which discards the body and answers a cap error
 instead) runs only under `if status == "ok":` — the EXCEPTION batch of an implementation error is exempt from the caps -/
 @[reducible] def unaryBudgetOnlyOnSuccess : Bool := {_b(bg["only_on_success"])}
+/-- socket-family server (rpc/_server.py): around each implementation call the first handler is `except Exception` and it
+writes the error batch — no exception class is intercepted ahead of it (unary, stream init, stream step) -/
+@[reducible] def socketUnaryCatchesAll : Bool := {_b(sh2["unary"])}
+@[reducible] def socketInitCatchesAll : Bool := {_b(sh2["init"])}
+@[reducible] def socketStepCatchesAll : Bool := {_b(sh2["step"])}
 /-- the three Falcon resources route every outcome through `_set_http_status` / `_set_error_response`; the stream
 resources reset `_current_response_status` to OK before dispatch and read it after -/
 def resourceLayerRecognised : Bool := {_b(all(rl.values()))}
